@@ -150,6 +150,10 @@ class Module:
             self.tree = ast.parse(src, filename=relpath)
         except SyntaxError as e:
             raise AnalysisError(f"cannot parse {relpath}: {e}")
+        if os.environ.get("VERIF_NO_CANON") != "1":
+            from .canon import canonicalise
+
+            self.tree = canonicalise(self.tree)
         self.is_package = relpath.endswith("__init__.py")
         self.functions = {}
         self.classes = {}
